@@ -2,6 +2,7 @@
 Engine E4: store factories, a dictionary model of the Store API, tree walks.
 """
 import hashlib
+import enum
 import os
 import stat
 
@@ -139,6 +140,27 @@ def prefix_free(paths):
 # module is never accepted, so dds treats these helpers as external names)
 
 
+class Doc(str):
+    """A text with state of its own (a subclass of str is an ordinary picklable object, not a text to store verbatim)."""
+
+    def __new__(cls, text, lang="en"):
+        o = super().__new__(cls, text)
+        o.lang = lang
+        return o
+
+    def __reduce__(self):
+        return (Doc, (str(self), self.lang))
+
+
+class Level(str, enum.Enum):
+    LOW = "low"
+    HIGH = "high"
+
+
+class Digest(bytes):
+    pass
+
+
 def _frame(kind):
     import pandas as pd
 
@@ -185,6 +207,12 @@ def result_value(tag):
         return _frame(3)
     if tag == "frame_odd_names":
         return _frame(4)
+    if tag == "str_subclass":
+        return Doc("texte", lang="fr")
+    if tag == "str_enum":
+        return Level.HIGH
+    if tag == "bytes_subclass":
+        return Digest(b"\x01\x02")
     if tag == "str_big":
         return "é" * (1 << 19)
     if tag == "bytes_big":
@@ -207,4 +235,6 @@ def values_equal(a, b):
         return len(a) == len(b) and all(values_equal(x, y) for x, y in zip(a, b))
     if isinstance(a, dict):
         return list(a.keys()) == list(b.keys()) and all(values_equal(a[k], b[k]) for k in a)
+    if isinstance(a, Doc):
+        return str(a) == str(b) and getattr(a, "lang", None) == getattr(b, "lang", None)
     return a == b
